@@ -318,6 +318,17 @@ class Check:
 
     def proofs(self):
         ps = proof_status(self.pid)
+        if self.tier == "thorough" and not ps["errors"]:
+            # independent re-check of the compiled files (and everything they depend on) with coqchk; lists the axioms of the closure
+            try:
+                r = run(["timeout", "3000", "coqchk", "-silent", "-o", "-R", ".", "IA", "IA.Properties_" + self.pid], cwd=COQ, timeout=3100)
+                out = r.stdout.decode(errors="replace") + r.stderr.decode(errors="replace")
+                m = re.search(r"\* Axioms:(.*?)\n\s*\n\* Constants", out, flags=re.S)
+                self.cov["coqchk"] = dict(exit=r.returncode, axioms=(m.group(1).strip() if m else "?"), summary=out[-600:])
+                if r.returncode != 0 or not m or m.group(1).strip() != "<none>":
+                    ps["errors"].append("coqchk does not confirm an axiom-free closure: exit %s, axioms %s" % (r.returncode, m.group(1).strip() if m else out[-300:]))
+            except subprocess.TimeoutExpired:
+                self.cov["coqchk"] = dict(exit="timeout")
         self.ps = ps
         self.cov["obligations"] = len(ps["theorems"])
         self.cov["discharged"] = ps["discharged"] if not ps["errors"] else min(ps["discharged"], max(0, len(ps["theorems"]) - 1))
